@@ -96,7 +96,7 @@ end
 def schemaFor (ver kind : String) : Option Sch :=
   match CharonV.Generated.ClusterSsz.schemas.find? (·.1 == ver) with
   | none => none
-  | some (_, c, d, l) =>
+  | some (_, c, d, l, _) =>
     if kind == "cfg" then some c else if kind == "def" then some d else if kind == "lock" then some l else none
 
 def doHash (ver kind val : String) : String :=
@@ -120,7 +120,7 @@ def doLeaves (ver kind paths : String) : String :=
   match CharonV.Generated.ClusterFields.fields.find? (·.1 == ver) with
   | none => "bad-op"
   | some (_, dl, ll) =>
-    let gen := (if kind == "def" then dl else ll).map (·.path)
+    let gen := (if kind == "def" then dl else ll).map (fun l => pathName CharonV.Generated.ClusterSsz.pathTable l.pid)
     -- a JSON `null` in place of a list stands for the (empty) list
     let found := (paths.splitOn ",").map (fun p => if !gen.contains p && gen.contains (p ++ "[]") then p ++ "[]" else p)
     let extra := found.filter (fun p => !gen.contains p)
